@@ -237,6 +237,18 @@ func recordC13(env *Env) {
 		}
 		jobs[i] = job{seqs, counts}
 	}
+	// half shares: a son of odd weight w under two fathers tied in abundance (count c) gives each of them exactly
+	// w/2 + 1/2 (Clean!RoundDiv: half away from zero), for every c - the products w*c and the sum 2c are exact
+	sub := func(s string, p int, b byte) string { return s[:p] + string(b) + s[p+1:] }
+	for _, w := range []int{1, 3, 5, 7} {
+		for c := 8; c <= 200; c++ {
+			root := randSeqN(env, 9+env.rng.Intn(6))
+			p := env.rng.Intn(len(root))
+			others := strings.Replace("acgt", string(root[p]), "", 1)
+			jobs = append(jobs, job{[]string{root, sub(root, p, others[0]), sub(root, p, others[1])}, []int{c, c, w}})
+		}
+	}
+	evs = make([]ev, len(jobs))
 	parallel(len(jobs), 0, func(i int) {
 		j := jobs[i]
 		ratio := []int{1, 1}
